@@ -11,7 +11,7 @@ set: a call that does not change the (idempotent) set sends nothing; (R13.6) the
 writes exactly the type byte (the enum as u8: SUBSCRIBE = 1, UNSUBSCRIBE = 0) followed by the topic bytes.
 Does NOT decide agreement at quiescent points under real interleavings."""
 from ..sym import show, walk_expr
-from ..common import short, trait_impls, coroutine_of, type_holds
+from ..common import short, trait_impls, coroutine_of, type_holds, strip_view
 from .. import pathq
 from ..report import Report
 from .c07 import wire_writes
@@ -208,8 +208,17 @@ def run(ctx, f, rep):
                     is_type = mt is not None and msg_type_value(f, mt) == want_type
                     rep.check(is_type, "R13.2", "R13.2|%s|message-type" % fn_name, "%s broadcasts a message of type byte %d (%s)" % (fn_name, want_type, txt[:60]), b.loc(ev.bb))
                     ta = A.get("bcast_topic_arg")
-                    topic_same = before and ta is not None and len(ev.args) > ta and any(x == ("arg", 1) or (isinstance(x, tuple) and x and x[0] == "field" and x[1] == ("arg", 1)) for x in walk_expr(ev.args[ta]))
-                    rep.check(bool(topic_same), "R13.2", "R13.2|%s|same-topic" % fn_name, "%s broadcasts the topic it was called with" % fn_name, b.loc(ev.bb))
+                    # the broadcast topic IS the caller's argument (a captured parameter of the async fn), through borrows only
+                    tv = strip_view(ev.args[ta]) if (ta is not None and len(ev.args) > ta) else None
+                    topic_same = bool(before) and tv is not None and tv[0] == "field" and tv[1] == ("arg", 1)
+                    # ... and the set is changed with that same topic (an owned copy of it, nothing else)
+                    set_same = False
+                    if before:
+                        sa = before[0][1].args[1] if len(before[0][1].args) > 1 else None
+                        set_same = sa is not None and any(isinstance(x, tuple) and x and x[0] == "field" and x[1] == ("arg", 1) for x in walk_expr(sa)) and \
+                            pathq.only_calls(sa, ("to_string", "to_owned", "from", "into", "clone", "as_ref", "borrow", "as_str", "deref"))
+                    rep.check(bool(topic_same) and set_same, "R13.2", "R13.2|%s|same-topic" % fn_name,
+                              "%s changes the set with, and broadcasts, the topic it was called with (broadcast %s, set %s)" % (fn_name, bool(topic_same), set_same), b.loc(ev.bb))
                     # R13.5: only when the set changed
                     if before:
                         res = before[0][1].result
